@@ -101,6 +101,11 @@ func authDataMember(files []aFile) aMember {
 					h.PAXRecords = map[string]string{"APK-TOOLS.checksum.SHA1": "zz-not-hex"}
 					e.Rec = "!"
 					return
+				case "blankq1":
+					// a record that is present but carries no digest: must never count as "verified"
+					h.PAXRecords = map[string]string{"APK-TOOLS.checksum.SHA1": "Q1"}
+					e.Rec = ""
+					return
 				case "q1":
 					h.PAXRecords = map[string]string{"APK-TOOLS.checksum.SHA1": "Q1" + base64.StdEncoding.EncodeToString(s[:])}
 					e.Rec = hex.EncodeToString(s[:])
